@@ -243,10 +243,14 @@ func (hni *HyperNodesInfo) RealNodesSet() map[string]sets.Set[string] {
 // DeleteHyperNode deletes a HyperNode from the cache and update hyperNode tree.
 func (hni *HyperNodesInfo) DeleteHyperNode(name string) error {
 	hni.markHyperNodeIsDeleting(name)
+	// Release the members first: a HyperNode that is being deleted no longer holds them, and an
+	// ancestor that lists one of them too (the double claim this deletion resolves) must be able
+	// to adopt it when the ancestors are rebuilt. Releasing them only after the rebuild made
+	// that rebuild fail for ever, so the HyperNode could never be deleted.
+	hni.removeParent(name)
 	if err := hni.updateAncestors(name); err != nil {
 		return err
 	}
-	hni.removeParent(name)
 
 	// We can safely delete hyperNode after updated ancestors.
 	hni.deleteHyperNode(name)
